@@ -148,9 +148,12 @@ def alts_match(evs, end, alts):
     return '(or %s)' % ' '.join(out) if len(out) > 1 else out[0]
 
 
-def trace_case(tag, decl, body, alts_fn, inputs=None):
-    """Case whose reference is alts_fn(inputs_of_path) -> alternatives (see alts_match)."""
-    return Case(tag, decl, body, inputs or {}, lambda names: {'trace': lambda evs, end, inp: alts_match(evs, end, alts_fn(inp))})
+def trace_case(tag, decl, body, alts_fn, inputs=None, files=None):
+    """Case whose reference is alts_fn(inputs_of_path) -> alternatives (see alts_match).
+    files: extra source files of the program ({'sub/sub.go': text}); the module is named verifprog."""
+    c = Case(tag, decl, body, inputs or {}, lambda names: {'trace': lambda evs, end, inp: alts_match(evs, end, alts_fn(inp))})
+    c.files = files or {}
+    return c
 
 
 class Case:
@@ -161,6 +164,7 @@ class Case:
         self.inputs = inputs    # {id: gotype}
         self.ref = ref          # f(names: {id: smt var}) -> dict(panic=cond|None, value=term, kind=...)
         self.note = note
+        self.files = {}         # extra files (other packages / other files of package main)
 
 
 def _hoist_imports(text):
@@ -224,7 +228,10 @@ def _explore_chunk(idx):
     rep.known = known
     rep.programs = 1
     d = os.path.join(workdir, 'prog%d' % idx)
-    core.write_pkg(d, {'main.go': program_source(ch)})
+    files = {'main.go': program_source(ch)}
+    for c in ch:
+        files.update(getattr(c, 'files', None) or {})
+    core.write_pkg(d, files)
     t0 = time.time()
     ok, out = core.compile_js(d, minify=bool(_WORK.get('minify')))
     if not ok:
@@ -621,15 +628,21 @@ def replay_program(case, model):
     for i in imps:
         if i not in src[1]:
             src[1] += i + '\n'
-    if 'func VerifYield() { runtime.Gosched() }' in cdecl:
-        ys = sorted((int(k[6:]), v) for k, v in model.items() if k.startswith('yield_'))
-        n = (ys[-1][0] + 1) if ys else 0
-        tab = ', '.join('true' if dict(ys).get(i) else 'false' for i in range(n))
-        cdecl = cdecl.replace('func VerifYield() { runtime.Gosched() }',
-                              'func VerifYield() {\n\ti := yieldIdx\n\tyieldIdx++\n\tif i < len(yieldTable) && yieldTable[i] {\n\t\truntime.Gosched()\n\t}\n}\n\nvar yieldTable = []bool{%s}\nvar yieldIdx int\n' % tab)
+    cdecl = bake_yields(cdecl, model)
     src.append(cdecl)
     src.append('\nfunc main() {\n%s\n}\n' % '\n'.join('\t' + ln for ln in case.body.split('\n')))
     return ''.join(src)
+
+
+def bake_yields(text, model):
+    """Replace the yield intrinsic by a table look-up that yields exactly at the dynamic calls the model selects."""
+    if 'func VerifYield() { runtime.Gosched() }' not in text:
+        return text
+    ys = sorted((int(k[6:]), v) for k, v in model.items() if k.startswith('yield_'))
+    n = (ys[-1][0] + 1) if ys else 0
+    tab = ', '.join('true' if dict(ys).get(i) else 'false' for i in range(n))
+    return text.replace('func VerifYield() { runtime.Gosched() }',
+                        'func VerifYield() {\n\ti := yieldIdx\n\tyieldIdx++\n\tif i < len(yieldTable) && yieldTable[i] {\n\t\truntime.Gosched()\n\t}\n}\n\nvar yieldTable = []bool{%s}\nvar yieldIdx int\n' % tab)
 
 
 def go_value(t, v):
@@ -669,7 +682,9 @@ def replay(case, model, outdir, minify=False):
     """Build the closed program with native go and with the real gopherjs; return both transcripts."""
     os.makedirs(outdir, exist_ok=True)
     src = replay_program(case, model)
-    core.write_pkg(outdir, {'main.go': src}, module='replay')
+    files = {'main.go': src}
+    files.update({k: bake_yields(v, model) for k, v in (getattr(case, 'files', None) or {}).items()})
+    core.write_pkg(outdir, files, module='verifprog' if getattr(case, 'files', None) else 'replay')
     go_rc, go_out, go_err = core.go_run(outdir)
     ok, js = core.compile_js(outdir, minify=minify)
     if not ok:
